@@ -212,18 +212,25 @@ def judgeH2 (payload impl : String) : Verdict :=
     | _, _ => .bad "bad-case"
   | _ => .bad "bad-case"
 
-/-- http.trailer (C03): chunked messages with trailer fields: reported exactly as the same conversation with those
-    fields in the header block, and every trailer field is among the reported header fields -/
+/-- http.trailer (C03): chunked messages with trailer fields.  Three ways: the dissector on the trailer form against
+    the wire model on the same bytes (which reads the trailer part and adds its fields to the header fields, as the
+    handlers do), both against the same conversation with those fields in the header block, and every trailer field
+    among the reported header fields -/
 def judgeTrailer (payload impl : String) : Verdict :=
   match Sx.parse payload, Sx.parse impl with
-  | some (.list [_, _, _, _, .list (.atom "want" :: want), _]), some (.list [.list [.atom "t", t], .list [.atom "h", h]]) =>
-    let same := t.toStr == h.toStr
-    let present := want.all fun w => (t.toStr.splitOn w.toStr).length > 1
-    let crashed := (impl.splitOn "panic").length > 1
-    let ok := same && present && !crashed
-    { corr := ok, implSpec := ok, modelSpec := true, tags := [], nontrivial := !want.isEmpty,
-      cls := s!"trailers={want.length}", model := h.toStr,
-      spec := "reported as the conversation with these fields in the header block: " ++ h.toStr }
+  | some (.list [ct, st, ch, sh, .list (.atom "want" :: want), _]), some (.list [.list [.atom "t", t], .list [.atom "h", h]]) =>
+    match ct.asBytes?, st.asBytes?, ch.asBytes?, sh.asBytes? with
+    | some ct, some st, some ch, some sh =>
+      let m := observe ct st
+      let mh := observe ch sh
+      let present (o : Sx) := want.all fun w => (o.toStr.splitOn w.toStr).length > 1
+      let crashed := (impl.splitOn "panic").length > 1
+      { corr := t.toStr == m.toStr && h.toStr == mh.toStr,
+        implSpec := t.toStr == h.toStr && present t && !crashed,
+        modelSpec := m.toStr == mh.toStr && present m, tags := [], nontrivial := !want.isEmpty,
+        cls := s!"trailers={want.length}", model := m.toStr,
+        spec := "reported as the conversation with these fields in the header block: " ++ h.toStr }
+    | _, _, _, _ => .bad "bad-case"
   | _, _ => { corr := false, implSpec := false, modelSpec := true, tags := [], nontrivial := true,
               cls := "no-observation", model := "-", spec := "trailer fields are reported with the header fields of their message" }
 
